@@ -297,6 +297,26 @@ pub fn dispatch(args: &Args) -> i32 {
         "C05" => crate::calc::c05(args),
         "C09" => crate::calc::c09(args),
         "C10" => crate::calc::c10(args),
+        "C18" => crate::calc::c18(args),
+        "C16" => {
+            let pls = ["flat", "flat_wo", "deep", "flat>deep", "deep>flat"];
+            let parts = vec![crate::extra::part_val_table(args, &pls)];
+            finish(args, "C16", parts, vec![], json!({
+                "functions": ["value::ValOpsFactory::make (priorities and commutativity flags)", "flat::detail::make_expression", "flat::detail::prioritized_indices_flat", "FlatEx::compile", "DeepEx::compile"],
+                "assumptions": ["flags of + * | & XOR are honoured as AC; the flags of == != cross dot && || are NOT (those operators are not associative), so any regrouping through them is a violation"],
+                "outside": ["the operator functions themselves (engine K cells)"],
+            }))
+        }
+        "C13" => crate::extra::c13(args),
+        "C14" => {
+            let pls = ["flat", "flat_wo", "deep", "flat>deep"];
+            let parts = vec![part_chains(args, &pls), part_chains_exh(args, &["flat", "deep"], false)];
+            finish(args, "C14", parts, vec![], json!({
+                "functions": ["flat::detail::eval_numbers (tracker selection by size)", "DeepEx::eval_relaxed (slice tracker)", "flat::detail::flatex_to_deepex (tracker replay)", "expression::eval_binary", "number_tracker"],
+                "assumptions": ["parametricity in T"],
+                "outside": ["chains longer than 257 operands"],
+            }))
+        }
         "replay" => crate::extra::replay(args),
         "floatop" => crate::floatop::run(args),
         "valtable" => {
